@@ -32,6 +32,9 @@ class Rig:
         self.VA = VmapAutoResetWrapper(b.env, next_obs_in_extras=flag)
         self.VW = VmapWrapper(AutoResetWrapper(b.env, next_obs_in_extras=flag))
         self.j = {n: (jax.jit(w.reset), jax.jit(w.step)) for n, w in (("V", self.V), ("VA", self.VA), ("VW", self.VW))}
+        # plain-Python (un-jitted) calls of the batched auto-reset wrapper are rationed: one step on which nobody ends
+        # and one on which somebody does, for the cheap environments
+        self.eager_left = {"quiet": 1, "ending": 1} if b.name in ("Snake", "Knapsack", "Game2048", "Maze", "TSP") else {}
 
 
 def sl(tree, i):
@@ -104,6 +107,16 @@ def run_case(ctx, rig, key_words, plans=None, actions=None, fail=None, typed=Fal
             fail("autoreset.step", "VmapAutoResetWrapper.step != VmapWrapper(AutoResetWrapper).step", f"step {t}: {d}")
         lasts = np.asarray(ha[1].step_type) == episodes.LAST
         k = int(lasts.sum())
+        kind = "quiet" if k == 0 else "ending"
+        if rig.eager_left.get(kind, 0) > 0:
+            rig.eager_left[kind] -= 1
+            he = episodes.host(rig.VA.step(sa, acts))      # the same call without jit
+            ctx.evals()
+            ctx.count(f"eager_wrapper_steps_{kind}")
+            d = treecmp.diff(he, ha, exact=False)
+            if d:
+                fail("autoreset.eager", "un-jitted VmapAutoResetWrapper.step differs from the jitted call",
+                     f"step {t} ({k} of {B} elements ended): {d}")
         ctx.count("steps_none_end" if k == 0 else ("steps_all_end" if k == B else "steps_some_end"))
         if 0 < k < B:
             ctx.nontrivial(b.name, b.entry, rig.flag, key_words, t)
